@@ -2,6 +2,7 @@ package c06
 
 import (
 	"context"
+	"errors"
 	"fmt"
 	"io"
 	"log/slog"
@@ -30,9 +31,17 @@ const (
 	bFail
 	bFailNow
 	bPanic
+	bErrorf // the non-fatal failure APIs: Errorf, Error
+	bError
+	bFatal  // Fatal: like FailNow
+	bNested // (cleanups only) registers a further cleanup while cleanups are running, and is fine otherwise;
+	// whether that late one ever runs is not stated anywhere - every cleanup registered in time still runs once
 )
 
-var bNames = []string{"ok", "Fail", "FailNow", "panic"}
+var bNames = []string{"ok", "Fail", "FailNow", "panic", "Errorf", "Error", "Fatal", "ok+registers-a-cleanup"}
+
+// failing reports whether behaviour b marks a failure.
+func failing(b int) bool { return b != bOK && b != bNested }
 
 type step struct {
 	Cleanup bool // register a cleanup with behaviour B; otherwise: call Fail()
@@ -122,6 +131,14 @@ func act(t *f1testing.T, b int) {
 		t.FailNow()
 	case bPanic:
 		panic("planned panic")
+	case bErrorf:
+		t.Errorf("planned failure %d", b)
+	case bError:
+		t.Error(errors.New("planned failure"))
+	case bFatal:
+		t.Fatal(errors.New("planned fatal failure"))
+	case bNested:
+		t.Cleanup(func() {})
 	}
 }
 
@@ -150,10 +167,10 @@ func genProgram(t *rapid.T, label string, maxSteps int) program {
 		if rapid.IntRange(0, 4).Draw(t, label+"Kind") == 0 {
 			p.Steps = append(p.Steps, step{})
 		} else {
-			p.Steps = append(p.Steps, step{Cleanup: true, B: rapid.SampledFrom([]int{bOK, bOK, bFail, bFailNow, bPanic}).Draw(t, label+"CleanupB")})
+			p.Steps = append(p.Steps, step{Cleanup: true, B: rapid.SampledFrom([]int{bOK, bOK, bOK, bFail, bFailNow, bPanic, bErrorf, bError, bFatal, bNested}).Draw(t, label+"CleanupB")})
 		}
 	}
-	p.End = rapid.SampledFrom([]int{bOK, bOK, bOK, bFail, bFailNow, bPanic}).Draw(t, label+"End")
+	p.End = rapid.SampledFrom([]int{bOK, bOK, bOK, bOK, bFail, bFailNow, bPanic, bErrorf, bError, bFatal}).Draw(t, label+"End")
 	return p
 }
 
@@ -352,7 +369,7 @@ func TestProp_Lifecycle(t *testing.T) {
 			cl := p.cleanups()
 			bad := 0
 			for _, b := range cl {
-				if b != bOK {
+				if failing(b) {
 					bad++
 				}
 			}
@@ -543,7 +560,7 @@ func judge(c lifecycleCase, log []event, resFailed bool, resErr error) string {
 	}
 	teardownFails := false
 	for _, b := range c.Setup.cleanups() {
-		if b != bOK {
+		if failing(b) {
 			teardownFails = true
 		}
 	}
